@@ -57,6 +57,24 @@ def configs(tier, seed):
     for m in METHODS:
         out.append({"name": f"index-4-{m}", "kind": "index", "n": 4 if tier == "quick" else 5, "method": m})
     out.sort(key=lambda c: -sum(c.get("sizes", [0])) * (3 if len(c.get("sizes", [])) > 2 else 1))
+    # end to end (concrete axes): stacking order of data / weights / matrices at shared points, results under original coordinates
+    A2, A3 = [0.0, 1.0], [0.0, 1.0, 2.5]
+    dsets = {"da": {"label": "da", "mc": ["m1"], "maxis": A3, "gaxis": [1.0, 2.0, 3.0]},
+             "db": {"label": "db", "mc": ["m1"], "maxis": A2, "gaxis": [1.05, 2.0, 3.5], "weight": True},
+             "dc": {"label": "dc", "mc": ["m1"], "maxis": A2 + [3.0, 4.0], "gaxis": [1.95, 3.45], "scale": "scc"}}
+    import itertools as _it
+
+    orders = list(_it.permutations(["da", "db", "dc"])) if tier == "thorough" else [("da", "db", "dc"), ("db", "da", "dc"), ("dc", "da", "db")]
+    for order in orders:
+        for m in (METHODS if tier == "thorough" or order == orders[0] else ("nearest",)):
+            out.append({"name": f"pipeline-{'-'.join(order)}-{m}", "kind": "pipeline",
+                        "pipeline": {"name": f"pipeline-{'-'.join(order)}-{m}", "mcs": {"m1": {"labels": ["s1", "s2"]}}, "tol": 0.1, "method": m,
+                                     "datasets": [dict(dsets[d]) for d in order], "groups": {"default": {"link_clp": True}}}})
+    for order in (("da", "db"), ("db", "da")):
+        out.append({"name": f"pipeline-model-weight-{'-'.join(order)}", "kind": "pipeline",
+                    "pipeline": {"name": f"pipeline-model-weight-{'-'.join(order)}", "mcs": {"m1": {"labels": ["s1", "s2"]}}, "tol": 0.1,
+                                 "datasets": [dict(dsets[d], weight=False) for d in order], "groups": {"default": {"link_clp": True}},
+                                 "weights": [{"datasets": ["da"], "global_interval": [2.0, 3.0], "model_interval": [0.0, 1.0]}]}})
     return out
 
 
@@ -108,6 +126,12 @@ def run_config(cfg, rec):
 
     rec.encodes(dp.DataProviderLinked.align_index, dp.DataProviderLinked.create_aligned_global_axes)
     rec.assume_note("global axes strictly increasing; tolerance >= 0; equal distances may resolve either way")
+    if cfg["kind"] == "pipeline":
+        from harness import c03_result_data as c03
+
+        # C02 obligations (each data point / weight / matrix row once, in the group's stacking order, per aligned point) and C03
+        # obligations (every reported array under the dataset's own coordinates) on the real Optimizer + create_result_data
+        return c03.run_config(cfg["pipeline"], rec)
     with Patcher() as p:
         p.set(dp, "np", SymNP(), "numpy facade")
         rec.shims += p.record
@@ -282,6 +306,14 @@ def _float_inputs(cfg, env):
 
 
 def concrete(cfg, env):
+    if cfg["kind"] == "pipeline":
+        from harness import c03_result_data as c03
+
+        return c03.concrete(cfg["pipeline"], env)
+    return _concrete(cfg, env)
+
+
+def _concrete(cfg, env):
     from glotaran.optimization.data_provider import DataProviderLinked
 
     if cfg["kind"] == "index":
@@ -308,6 +340,10 @@ def _ok_float(r, p, targets, tol, method):
 def replay(data):
     """Float-code oracle: brute-force specification on the model's numbers."""
     cfg, env = data["cfg"], data["env"]
+    if cfg["kind"] == "pipeline":
+        from harness import c03_result_data as c03
+
+        return c03.replay({"cfg": cfg["pipeline"], "env": {}})
     method = cfg["method"]
     from glotaran.optimization.data_provider import DataProviderLinked
 
